@@ -2,6 +2,7 @@
 from props_front import POOL, c09_shapes
 import props_pipe
 import props_time
+import props_list
 
 COMMON_ASSUME = [
     'input strings are well-formed UTF-8 (Rust &str invariant), constrained by the exact RFC 3629 formula',
@@ -211,4 +212,20 @@ PROPS = {
                 explanation='Relational: every template is rendered with < > / t m and with a second spelling - pool pairs with natural-language tag names, and fully '
                             'symbolic delimiters (1..4 bytes each, any valid UTF-8, identical start/end allowed) with symbolic tag names - sharing the same hole '
                             'variables; clean under the second spelling must equal the rewritten output of the first, list_all line ranges and statuses must be equal.'),
+    'C15': dict(jobs=props_list.list_jobs('c15_list'), tv=('front', 'pipe', 'list'), assumptions=PIPE_ASSUME + [
+                    'serde_json::to_string is stubbed (keeps the Vec<ListItem> structure); natively the JSON text is parsed back to the same structure',
+                    'holes contain no line break and no ESC byte; tags do not sit on unwrap wrapper lines; first byte is not a line break'],
+                explanation='chiritori::list (JSON and coloured pretty form) on the template space: Ready items = regions of the reference evaluation (one per default '
+                            'element, two per unwrapped one, nested ones dropped), same order, first/last line by counting line breaks, highlighted pieces of the '
+                            'pretty form equal the region text line by line; asking twice gives the same listing.'),
+    'C16': dict(jobs=props_list.list_jobs('c16_render'), tv=('front', 'pipe', 'list'), assumptions=PIPE_ASSUME + [
+                    'validity of the JSON text is serde_json\'s contract (stubbed), not decided here',
+                    'the width of the line-number column (7 + " |") is taken from the existing rendering; columns are counted in bytes with tab = 4 (ASCII left of the markers)'],
+                explanation='list_all in both formats against a reference renderer written from the statement (numbered source lines first..last, tabs expanded, _start / '
+                            'end markers in the columns of the first / last removed byte, colour codes around the region pieces, item headers): byte equality of the '
+                            'whole pretty listing and of every JSON code block, line_range and status.'),
+    'C17': dict(jobs=props_list.list_jobs('c17_list_all'), tv=('front', 'pipe', 'list'), assumptions=PIPE_ASSUME + [
+                    'serde_json::to_string is stubbed (keeps the Vec<ListItem> structure)', 'holes contain no line break; tags do not sit on unwrap wrapper lines'],
+                explanation='chiritori::list_all (JSON) on templates with 0..4 pending siblings / children around and inside ready elements, both strategies: items = Ready '
+                            'regions + Pending regions not inside a Ready or a larger Pending region, in source order; Ready subsequence identical to list.'),
 }
